@@ -3,6 +3,7 @@ From Coq Require Import List NArith Bool Arith Lia.
 From CC Require Import Policy PolicyProofs Structure Keys KeysMachine CoverProofs1 CoverProofs2 CoverPolicy Leb.
 From CC Require Crypto.
 From Coq Require Import Field_theory.
+From CC Require Import KInv1 E2E1 E2E2 E2E3 E2E4 E2E5 E2E6.
 Import ListNotations.
 
 (* Rights layer: for a well-formed structure and clauses naming each dimension at most once, the right of the
@@ -54,3 +55,65 @@ Theorem C01_decaps_correct_classic :
   Crypto.decaps F zero add mul F_eq_dec D D_eq_dec H Jtag Jkey G unmask markers tracers sks x = Some key.
 Proof. intros. eapply Crypto.decaps_correct; eassumption. Qed.
 Print Assumptions C01_decaps_correct_classic.
+
+(* ---- END TO END at the level of the key-management state machine (E2E1-6.v): for every reachable state in which the master
+   key has just been updated, a key generated for UP and an encapsulation made for EP under the public key of that update
+   (any quiet operations in between, either order): decapsulation returns the encapsulated secret if some clause of UP covers
+   some clause of EP at NAME level, and "not authorized" if none does. ---- *)
+Theorem C01_complete_reach :
+  forall (s0 : state) (ops1 ops2 : list op) (UP EP : str) (up ep : policy) (du : usk) (dx : xenc),
+       let s1 := fst (step fixed s0 OUpdate) in
+       let st := m_st (st_msk s1) in
+       let j := length (st_mpks s0) in
+       let sa := run_state fixed s1 ops1 in
+       let s2 := fst (step fixed sa (OKeygen UP)) in
+       let sb := run_state fixed s2 ops2 in
+       let s3 := fst (step fixed sb (OEncaps j EP)) in
+       let u := last (st_usks s2) du in
+       let x := last (st_encs s3) dx in
+       reach s0 ->
+       snd (step fixed s0 OUpdate) = ObOk ->
+       quiet_ops ops1 ->
+       snd (step fixed sa (OKeygen UP)) = ObOk ->
+       quiet_ops ops2 ->
+       snd (step fixed sb (OEncaps j EP)) = ObOk ->
+       parse true UP = Ok up ->
+       parse true EP = Ok ep ->
+       (forall U : list qattr, In U (to_dnf up) -> NoDup (map qdim U)) ->
+       (forall E : list qattr, In E (to_dnf ep) -> NoDup (map qdim E)) ->
+       (exists U E : list qattr, In U (to_dnf up) /\ In E (to_dnf ep) /\ covers st U E) ->
+       Keys.decaps fixed u x = Some (x_seed x).
+Proof. exact (@E2E2.C01_complete). Qed.
+Print Assumptions C01_complete_reach.
+
+Theorem C01_C02_end_to_end :
+  forall (s0 : state) (UP EP : str) (up ep : policy) (du : usk) (dx : xenc),
+       let s1 := fst (step fixed s0 OUpdate) in
+       let st := m_st (st_msk s1) in
+       let j := length (st_mpks s0) in
+       let s2 := fst (step fixed s1 (OKeygen UP)) in
+       let s3 := fst (step fixed s2 (OEncaps j EP)) in
+       let k := length (st_usks s0) in
+       let e := length (st_encs s0) in
+       let u := last (st_usks s2) du in
+       let x := last (st_encs s3) dx in
+       reach s0 ->
+       snd (step fixed s0 OUpdate) = ObOk ->
+       parse true UP = Ok up ->
+       parse true EP = Ok ep ->
+       (forall U : list qattr, In U (to_dnf up) -> NoDup (map qdim U)) ->
+       (forall E : list qattr, In E (to_dnf ep) -> NoDup (map qdim E)) ->
+       names_exist st up ->
+       (forall E : list qattr, In E (to_dnf ep) -> clause_enabled st E) ->
+       snd (step fixed s1 (OKeygen UP)) = ObOk /\
+       snd (step fixed s2 (OEncaps j EP)) = ObOk /\
+       nth_error (st_usks s3) k = Some u /\
+       nth_error (st_encs s3) e = Some x /\
+       ((exists U E : list qattr, In U (to_dnf up) /\ In E (to_dnf ep) /\ covers st U E) ->
+        Keys.decaps fixed u x = Some (x_seed x) /\ snd (step fixed s3 (ODecaps k e)) = ObSome (x_seed x)) /\
+       ((forall U E : list qattr, In U (to_dnf up) -> In E (to_dnf ep) -> ~ covers st U E) ->
+        Keys.decaps fixed u x = None /\ snd (step fixed s3 (ODecaps k e)) = ObNone).
+Proof. exact (@E2E6.C01_C02_end_to_end). Qed.
+Print Assumptions C01_C02_end_to_end.
+
+
